@@ -22,6 +22,28 @@ type c11Case struct {
 }
 
 func (k c11Case) pixels() []byte {
+	if k.Content == "fib" { // w, h, quality are those of fibImage()
+		g, w, h, _ := fibImage(k.Codec == "ext12")
+		switch {
+		case k.Codec == "ext12":
+			p := make([]byte, w*h*2)
+			for i, v := range g {
+				p[2*i], p[2*i+1] = byte(v), byte(v>>8)
+			}
+			return p
+		case k.Comps == 3:
+			p := make([]byte, w*h*3)
+			for i, v := range g {
+				p[3*i], p[3*i+1], p[3*i+2] = byte(v), byte(v), byte(v)
+			}
+			return p
+		}
+		p := make([]byte, w*h)
+		for i, v := range g {
+			p[i] = byte(v)
+		}
+		return p
+	}
 	rng := NewRand(k.Seed)
 	if k.Codec == "ext12" {
 		return gen12(rng, k.Content, k.W, k.H)
@@ -51,7 +73,7 @@ func c11Cases(c *Ctx) []c11Case {
 			for _, n := range contents12 {
 				ok = ok || n == content
 			}
-			if !ok {
+			if !ok && content != "fib" {
 				content = "noise"
 			}
 		} else if content == "noise8" {
@@ -94,6 +116,23 @@ func c11Cases(c *Ctx) []c11Case {
 				add(ci, rng.Range(1, 48), rng.Range(1, 48), q, content)
 			}
 		}
+	}
+	// (3b) images whose AC statistics need Huffman trees deeper than 16 (length limiting in
+	// BuildOptimalHuffmanTable): large uniform / graded noise at high quality, and the
+	// synthetic Fibonacci-histogram picture
+	deep := []struct {
+		ci, w, h, q int
+		content     string
+	}{{0, 256, 256, 90, "noise"}, {1, 256, 256, 90, "noise"}, {0, 256, 256, 95, "gnoise"}, {1, 256, 256, 100, "gnoise"},
+		{0, 256, 256, 50, "noise"}, {1, 384, 256, 90, "gnoise"}, {0, 256, 256, 100, "noise"}, {1, 256, 256, 95, "noise"},
+		{2, 256, 256, 90, "noise"}, {3, 256, 256, 95, "gnoise"}, {3, 256, 256, 50, "gnoise"},
+		{4, 256, 256, 90, "noise"}, {4, 256, 256, 100, "gnoise"}, {4, 384, 256, 95, "gnoise"}, {4, 256, 256, 50, "noise"}}
+	for _, d := range deep {
+		add(d.ci, d.w, d.h, d.q, d.content)
+	}
+	for ci := range c11Codecs {
+		_, fw, fh, fq := fibImage(c11Codecs[ci].codec == "ext12")
+		add(ci, fw, fh, fq, "fib")
 	}
 	// (4) larger images (up to 512); 65535-wide strips only in thorough
 	big := [][2]int{{64, 64}, {100, 75}, {256, 256}, {255, 257}, {512, 3}, {3, 512}}
@@ -142,6 +181,7 @@ func runC11(c *Ctx) {
 	for _, k := range ks {
 		c.R.Note("c11: allowance consumed (max of |dec-src| minus the table term) %s = %.3f", k, c11Used[k])
 	}
+	runOptHuff(c, "C11")
 	runDctCorr(c, "C11")
 }
 
@@ -179,6 +219,9 @@ func c11One(c *Ctx, k c11Case, sample bool) {
 		return
 	}
 	in["stream"] = clipBytes(stream)
+	if acMaxLen16(stream) {
+		c.R.Case(key+":deep", false, "c11.ac_table_uses_16_bit_codes."+k.Codec)
+	}
 
 	// tables written in that stream
 	hd := walk(stream)
